@@ -7,8 +7,34 @@ finite, the search runs to closure, so agreement holds for every input of every 
 import collections
 
 
+import sys
+import types
+
+
+def absval(v, depth=0):
+    """abstract a local of the scanner: plain data is kept, objects are opened (their attributes), iterators /
+    generators / functions / the byte source itself are opaque (their identity must not make states distinct)"""
+    if v is None or isinstance(v, (bool, int, float, str, bytes)):
+        return v
+    if isinstance(v, bytearray):
+        return bytes(v)
+    if isinstance(v, (list, tuple)):
+        return tuple(absval(x, depth + 1) for x in v)
+    if isinstance(v, dict):
+        return tuple(sorted((str(k), absval(x, depth + 1)) for k, x in v.items()))
+    if isinstance(v, (Feed, types.GeneratorType, types.FunctionType, types.MethodType, types.BuiltinFunctionType, types.ModuleType, type)) or hasattr(v, "__next__"):
+        return ("<opaque>", type(v).__name__)
+    if hasattr(v, "__dict__") and depth < 3:
+        return (type(v).__name__,) + tuple(sorted((k, absval(x, depth + 1)) for k, x in vars(v).items()))
+    if hasattr(v, "__slots__") and depth < 3:
+        return (type(v).__name__,) + tuple((k, absval(getattr(v, k, None), depth + 1)) for k in v.__slots__)
+    return ("<opaque>", type(v).__name__)
+
+
 class Feed:
-    """byte source that captures the scanner's state when it asks for the byte after the prefix"""
+    """byte source that captures the scanner's state when it asks for the byte after the prefix: every frame between
+    this call and the harness (the scanner generator and whatever helpers it calls), by instruction offset and
+    abstracted locals - no name of the scanner's code is assumed"""
 
     def __init__(self, b, skip):
         self.b = bytes(b)
@@ -23,8 +49,16 @@ class Feed:
     def __next__(self):
         if self.i >= len(self.b):
             if self.state is None and self.g is not None and self.g.gi_frame is not None:
-                f = self.g.gi_frame
-                self.state = (f.f_lasti,) + tuple(sorted((k, v) for k, v in f.f_locals.items() if k not in self.skip))
+                out = []
+                f = sys._getframe(1)
+                while f is not None and "/vlib/" not in f.f_code.co_filename:
+                    # self.skip: locals of the current implementation that are dead at this point (the last character
+                    # read, the last byte produced); keeping them would only multiply the states by 256 x 256.  If the
+                    # code is restructured and the closure no longer terminates, the caller falls back to a bounded
+                    # exploration - it never reports non-closure as a violation.
+                    out.append((f.f_code.co_name, f.f_lasti, tuple(sorted((k, absval(v)) for k, v in f.f_locals.items() if k not in self.skip))))
+                    f = f.f_back
+                self.state = tuple(out)
             raise StopIteration
         v = self.b[self.i]
         self.i += 1
@@ -47,7 +81,40 @@ def run_real(scan, prefix, skip=("buffer", "b", "i")):
     return f.state, tuple(out), end, f.i
 
 
-def closure(scan, ref, alphabet=range(256), max_states=200000):
+def bounded(scan, ref, letters, depth):
+    """fallback when the closure does not terminate: every string of length <= depth over a reduced alphabet
+    (representatives of the reference automaton's letter classes).  -> dict(strings, mismatches)"""
+    import itertools
+
+    mism = {}
+    n = 0
+    for L in range(depth + 1):
+        for tup in itertools.product(letters, repeat=L):
+            q = bytes(tup)
+            n += 1
+            st, routs = ref.init, ()
+            for c in q:
+                st, o = ref.step(st, c)
+                routs += o
+            rs, out, end, consumed = run_real(scan, q)
+            tag = st[0]
+            if end.startswith("ESC"):
+                mism.setdefault(("exception", end), (q, f"scanner raised {end}"))
+                continue
+            if tag == "OUT":
+                continue
+            if out != routs:
+                mism.setdefault(("outputs", tag), (q, f"scanner yields {out[-4:]}, reference {routs[-4:]}"))
+                continue
+            want = ref.eof(st)
+            if rs is None and not (end == "ValueError" and tag == "ERR"):
+                mism.setdefault(("terminated-early", end, tag), (q, f"scanner ended with {end}, reference state {st}"))
+            elif rs is not None and want != "any" and end != want:
+                mism.setdefault(("eof", end, want), (q, f"at end of input the scanner gives {end}, reference {want}"))
+    return dict(strings=n, mismatches=mism)
+
+
+def closure(scan, ref, alphabet=range(256), max_states=40000):
     """-> dict(states, transitions, mismatches {key: (access string, detail)}, closed, covered (non-OUT states),
     access strings of a few states)"""
     seen = {}
